@@ -174,7 +174,8 @@ class C20(Prop):
     quick_deadline_s = 100
     thorough_deadline_s = 800
     all_branches = (
-        ["new", "express", "getv:none", "getv:some", "expr:0", "expr:1", "badid"]
+        ["new", "express", "getv:none", "getv:some", "expr:0", "expr:1", "badid", "validate:ok", "validate:bad", "list",
+         "diff:empty", "diff:some"]
         + [f"add:{g}:{b}" for g in ("allow", "nocb", "cb") for b in "01" if not (g == "allow" and b == "0")]
         + ["mutate:allow:1", "mutate:allow:0", "mutate:nocb:0", "mutate:cb:0", "mutate:cb:1", "mutate:cb:raise"]
         + ["rollback:allow:1", "rollback:allow:0", "rollback:nocb:0", "rollback:cb:0", "rollback:cb:1",
@@ -189,8 +190,9 @@ class C20(Prop):
         "the random pass of replicate is environment: random.random is pinned to 0.5 while replicate runs "
         "(mutation_rate 1.0 then attempts the identity mutation on every int-valued gene); the theorems hold for "
         "every draw function",
-        "gene names are distinct strings (dict keys); description, timestamps, modifier text, console output, diff, "
-        "validate, from_dict, list_genes are not modelled",
+        "gene names are distinct strings (dict keys); description, timestamps, modifier text, console output and "
+        "get_statistics (beyond approved_mutations, read by the oracle) are not modelled; validate, list_genes, diff, "
+        "from_dict and export are in the model/correspondence but outside the property",
     ]
     trusted_modelled = ["modelled, not verified: Genome.add_gene/mutate/rollback_mutation/set_expression/express/"
                         "replicate/get_value as Operon.Genome.step over a store of genomes"]
@@ -248,7 +250,14 @@ class C20(Prop):
                 if rng.random() < 0.12 and names:
                     gl.append(self._gene(rng, rng.choice(names)))       # duplicate name in the constructor list
                 rng.shuffle(gl)
-                lines.append(f"new {show_bool(allow)} {cb} {show_bool(rate)} " + " ".join(gl))
+                if rng.random() < 0.1:      # Genome.from_dict: all-default genes
+                    cfg = {}
+                    for g_ in gl:
+                        cfg.setdefault(g_.split(":")[0], g_.split(":")[1])
+                    lines.append(f"fromdict {show_bool(allow)} {cb} {show_bool(rate)} " +
+                                 (",".join(f"{k_}:{v_}" for k_, v_ in cfg.items()) or "-"))
+                else:
+                    lines.append(f"new {show_bool(allow)} {cb} {show_bool(rate)} " + " ".join(gl))
                 count += 1
             approved_vals = [int(a.split(":")[1]) for a in aset if not a.endswith("*")]
 
@@ -313,6 +322,9 @@ class C20(Prop):
                     lines.append(f"express {i} {ctx}")
                 else:
                     lines.append(f"getv {i} {nm}")
+                if rng.random() < 0.12:
+                    lines.append(rng.choice([f"validate {i}", f"list {i}", f"diff {i} {rng.randrange(count + 1)}",
+                                             f"diff {rng.randrange(count)} {i}"]))
                 if sandwich and rng.random() < 0.7:
                     lines.append(f"express {i} {rng.choice(ctxpool)}")
                     if rng.random() < 0.3:
@@ -425,7 +437,14 @@ class C20(Prop):
                                  on_mutation=None if cb is None else w.cb(cb), silent=True)
                     w.pool.append(g)
                     res = f"created {len(w.pool) - 1}"
-                elif parsed[1] >= len(w.pool):
+                elif kind == "fromdict":
+                    _, allow, cb, rate, cfg = parsed
+                    g = m.Genome.from_dict({gname(n): val(v) for n, v in cfg}, allow_mutations=allow,
+                                           mutation_rate=1.0 if rate else 0.0,
+                                           on_mutation=None if cb is None else w.cb(cb), silent=True)
+                    w.pool.append(g)
+                    res = f"created {len(w.pool) - 1}"
+                elif parsed[1] >= len(w.pool) or (kind == "diff" and parsed[2] >= len(w.pool)):
                     res = "bad"
                 else:
                     g = w.pool[parsed[1]]
@@ -464,6 +483,21 @@ class C20(Prop):
                         rec["config"] = {ncode(k): code(v) for k, v in out.items()}
                         res = "cfg [" + ",".join(f"{k}={v}" for k, v in sorted(rec["config"].items(),
                                                                                   key=lambda kv: _num(kv[0]))) + "]"
+                    elif kind == "validate":
+                        ok, errs = g.validate()        # message text is not compared: validity flag + number of errors
+                        res = "valid" if (ok and not errs) else f"invalid {len(errs)}" if not ok else "validate-inconsistent"
+                    elif kind == "list":
+                        lv = {"SILENCED": "0", "LOW": "1", "NORMAL": "2", "HIGH": "3", "OVEREXPRESSED": "4"}
+                        rows = {ncode(d_["name"]): f"{ncode(d_['name'])}={code(d_['value'])}:{TYPES_INV.get(d_['type'], '?')}:"
+                                f"{lv.get(d_['expression'], '?')}:{show_bool(d_['required'])}" for d_ in g.list_genes()}
+                        res = "list [" + ",".join(v_ for _, v_ in sorted(rows.items(), key=lambda kv: _num(kv[0]))) + "]"
+                    elif kind == "diff":
+                        d_ = g.diff(w.pool[parsed[2]])
+                        sh = lambda x, nm: "none" if (x is None and nm) else code(x)
+                        other = w.pool[parsed[2]]
+                        rows = {ncode(k_): f"{ncode(k_)}:{sh(a_, g.get_gene(k_) is None)}/{sh(b_, other.get_gene(k_) is None)}"
+                                for k_, (a_, b_) in d_.items()}
+                        res = "diff [" + ",".join(v_ for _, v_ in sorted(rows.items(), key=lambda kv: _num(kv[0]))) + "]"
                     elif kind == "getv":
                         sentinel = object()
                         v = g.get_value(gname(parsed[2]), sentinel)
@@ -502,6 +536,13 @@ class C20(Prop):
             return ("mutate", nat(t[1]), nat(t[2]), nat(t[3]))
         if op in ("rollback", "silence", "activate", "getv") and len(t) == 3:
             return (op, nat(t[1]), nat(t[2]))
+        if op in ("validate", "list") and len(t) == 2:
+            return (op, nat(t[1]))
+        if op == "diff" and len(t) == 3:
+            return ("diff", nat(t[1]), nat(t[2]))
+        if op == "fromdict" and len(t) == 5:
+            cb = None if t[2] == "none" else nat(t[2])
+            return ("fromdict", t[1] == "1", cb, t[3] == "1", parse_pairs(t[4]))
         if op == "expr" and len(t) == 4:
             if t[3] not in ("0", "1", "2", "3", "4"):
                 return None
